@@ -94,6 +94,10 @@ mod h {
         assert!(accepted::<IfgExec>(s) == accepted::<IfnExecMsg>(s));
         assert!(accepted::<IfgQuery>(s) == accepted::<IfnQueryMsg>(s));
         assert!(!accepted::<Exec>("_phantom") && !accepted::<Exec>("__phantom") && !accepted::<Query>("_phantom") && !accepted::<Sudo>("_phantom"));
+        assert!(!accepted::<Query>("__phantom") && !accepted::<Sudo>("__phantom"));
+        // the interface messages carry their own placeholder variant (a different code site)
+        assert!(!accepted::<IfgExec>("_phantom") && !accepted::<IfgExec>("__phantom"), "placeholder of the interface message is not a message");
+        assert!(!accepted::<IfgQuery>("_phantom") && !accepted::<IfgQuery>("__phantom"), "placeholder of the interface message is not a message");
         kani::cover!(accepted::<Exec>(s));
         kani::cover!(!accepted::<Exec>(s));
     }
